@@ -66,7 +66,7 @@ func init() {
 		}
 	}
 	gramSpecs["C14"] = func(c *Ctx) ([]*family.Grammar, *GramSpec) {
-		N, nS := 3, 30
+		N, nS := 3, 20
 		if !c.Quick() {
 			nS = 200
 		}
